@@ -182,8 +182,115 @@ impl CtPlacement {
     }
 }
 
+/// Typed values handed to `body_json(&impl Serialize)`. The documented encoding of a JSON body is
+/// serde_json's serialisation of the value the app passed, so these are compared byte for byte
+/// with `serde_json::to_vec(&value)`: a detour through `serde_json::Value` (sorted keys, f32
+/// widened to f64, no 128-bit integers) or any other re-encoding shows.
+#[derive(Debug, Clone, Copy, PartialEq, Eq)]
+pub enum TypedJson {
+    /// struct whose fields are not in alphabetical order, nested
+    UnorderedStruct,
+    /// struct with an `f32` field (21.3f32 is "21.3", as f64 it is 21.299999237060547)
+    F32Struct,
+    /// `u128` above `u64::MAX` and `i128` below `i64::MIN`
+    BigInts,
+    /// a map type whose insertion order differs from its key order
+    InsertionOrderMap,
+    /// enum variants (unit, newtype, struct) in a sequence, `Option`s
+    Enums,
+}
+
+#[derive(Serialize)]
+struct TjInner {
+    y: bool,
+    x: Option<u8>,
+    w: Option<u8>,
+}
+#[derive(Serialize)]
+struct TjUnordered {
+    zeta: u8,
+    alpha: &'static str,
+    mid: TjInner,
+    beta: Vec<u32>,
+    #[serde(rename = "Aardvark")]
+    renamed: i64,
+}
+#[derive(Serialize)]
+struct TjF32 {
+    reading: f32,
+    tenth: f32,
+    double: f64,
+    name: &'static str,
+}
+#[derive(Serialize)]
+struct TjBig {
+    big: u128,
+    small: i128,
+    fits: u128,
+    max: u64,
+}
+struct TjMap(Vec<(&'static str, i32)>);
+impl Serialize for TjMap {
+    fn serialize<S: serde::Serializer>(&self, ser: S) -> Result<S::Ok, S::Error> {
+        use serde::ser::SerializeMap;
+        let mut m = ser.serialize_map(Some(self.0.len()))?;
+        for (k, v) in &self.0 {
+            m.serialize_entry(k, v)?;
+        }
+        m.end()
+    }
+}
+#[derive(Serialize)]
+enum TjShape {
+    Unit,
+    Newtype(u8),
+    Struct { r: f32, label: Option<&'static str> },
+}
+
+fn tj_unordered() -> TjUnordered {
+    TjUnordered {
+        zeta: 1,
+        alpha: "a\u{e9}\"",
+        mid: TjInner { y: true, x: None, w: Some(3) },
+        beta: vec![3, 1, 2],
+        renamed: -5,
+    }
+}
+fn tj_f32() -> TjF32 {
+    TjF32 { reading: 21.3, tenth: 0.1, double: 21.3, name: "probe" }
+}
+fn tj_big() -> TjBig {
+    TjBig { big: u64::MAX as u128 + 1, small: i64::MIN as i128 - 1, fits: 7, max: u64::MAX }
+}
+fn tj_map() -> TjMap {
+    TjMap(vec![("zebra", 1), ("apple", 2), ("mango", 3), ("Apple", 4)])
+}
+fn tj_enums() -> Vec<TjShape> {
+    vec![TjShape::Unit, TjShape::Newtype(9), TjShape::Struct { r: 2.5, label: None }, TjShape::Struct { r: 0.3, label: Some("x") }]
+}
+
+impl TypedJson {
+    /// the reference encoding
+    fn to_vec(self) -> Vec<u8> {
+        match self {
+            TypedJson::UnorderedStruct => serde_json::to_vec(&tj_unordered()),
+            TypedJson::F32Struct => serde_json::to_vec(&tj_f32()),
+            TypedJson::BigInts => serde_json::to_vec(&tj_big()),
+            TypedJson::InsertionOrderMap => serde_json::to_vec(&tj_map()),
+            TypedJson::Enums => serde_json::to_vec(&tj_enums()),
+        }
+        .unwrap_or_else(|e| mc_kit::machinery_error(&format!("serde_json::to_vec rejects an alphabet value: {e}")))
+    }
+}
+
+/// `body_json` must not fail where `serde_json::to_vec` succeeds; the harness turns a refusal
+/// into a panic with this prefix, which `run_case` files under its own key.
+const BODY_JSON_REFUSED: &str = "body_json refused a value serde_json::to_vec serialises";
+
 #[derive(Debug, Clone)]
 pub enum BodySpec {
+    /// `.body_json(&typed_value)`
+    Typed(TypedJson),
     None,
     Str(String),
     Bytes(Vec<u8>),
@@ -211,6 +318,11 @@ pub fn bodies() -> Vec<(&'static str, BodySpec)> {
             BodySpec::Json(json!({"a":[1,2,{"b":null}],"c":{"d":"e"},"f":1.5,"g":true,"h":-7})),
         ),
         ("json-unicode", BodySpec::Json(json!({"k":"\u{fc}\u{2713}","emoji":"\u{1f600}","esc":"\"\\\n"}))),
+        ("json-typed-unordered-struct", BodySpec::Typed(TypedJson::UnorderedStruct)),
+        ("json-typed-f32", BodySpec::Typed(TypedJson::F32Struct)),
+        ("json-typed-128-bit-integers", BodySpec::Typed(TypedJson::BigInts)),
+        ("json-typed-insertion-order-map", BodySpec::Typed(TypedJson::InsertionOrderMap)),
+        ("json-typed-enums", BodySpec::Typed(TypedJson::Enums)),
         (
             "form-reserved-characters",
             BodySpec::Form(vec![
@@ -316,8 +428,6 @@ pub enum CtExpect {
 #[derive(Debug, Clone, PartialEq)]
 pub enum BodyExpect {
     Bytes(Vec<u8>),
-    /// any serialisation that a conforming JSON parser reads back as this value
-    Json(Value),
     /// any form-urlencoding that decodes to these pairs
     Form(Vec<(String, String)>),
 }
@@ -340,7 +450,7 @@ fn documented_content_type(body: &BodySpec) -> Option<&'static str> {
         BodySpec::None => None,
         BodySpec::Str(_) | BodySpec::IntoStr(_) => Some("text/plain;charset=utf-8"),
         BodySpec::Bytes(_) | BodySpec::Reader(..) => Some("application/octet-stream"),
-        BodySpec::Json(_) => Some("application/json"),
+        BodySpec::Json(_) | BodySpec::Typed(_) => Some("application/json"),
         BodySpec::Form(_) => Some("application/x-www-form-urlencoded"),
     }
 }
@@ -384,7 +494,9 @@ pub fn expected_for(ix: CaseIx, al: &Alphabets) -> Expected {
         BodySpec::IntoStr(s) => BodyExpect::Bytes(s.as_bytes().to_vec()),
         BodySpec::Bytes(b) => BodyExpect::Bytes(b.clone()),
         BodySpec::Reader(b, _) => BodyExpect::Bytes(b.clone()),
-        BodySpec::Json(v) => BodyExpect::Json(v.clone()),
+        // the documented encoding of a JSON body is serde_json's serialisation of the value passed
+        BodySpec::Json(v) => BodyExpect::Bytes(serde_json::to_vec(v).expect("json alphabet value")),
+        BodySpec::Typed(t) => BodyExpect::Bytes(t.to_vec()),
         BodySpec::Form(p) => BodyExpect::Form(p.clone()),
     };
     Expected {
@@ -496,7 +608,6 @@ pub fn compare(exp: &Expected, body_spec: &BodySpec, got: &HttpRequest) -> Optio
     // body
     let body_ok = match &exp.body {
         BodyExpect::Bytes(b) => &got.body == b,
-        BodyExpect::Json(v) => serde_json::from_slice::<Value>(&got.body).ok().as_ref() == Some(v),
         BodyExpect::Form(p) => {
             let got_pairs: Vec<(String, String)> = url::form_urlencoded::parse(&got.body)
                 .map(|(k, v)| (k.into_owned(), v.into_owned()))
@@ -507,9 +618,24 @@ pub fn compare(exp: &Expected, body_spec: &BodySpec, got: &HttpRequest) -> Optio
     if !body_ok {
         let key = match (body_spec, got.body.is_empty()) {
             (BodySpec::Reader(_, false), true) => "request/body-dropped-unknown-length",
+            (BodySpec::Json(_) | BodySpec::Typed(_), false)
+                if serde_json::from_slice::<Value>(&got.body).is_ok() =>
+            {
+                "request/json-body-reencoded"
+            }
             (_, true) => "request/body-dropped",
             _ => "request/body-altered",
         };
+        if let (BodySpec::Json(_) | BodySpec::Typed(_), BodyExpect::Bytes(want)) = (body_spec, &exp.body) {
+            return Some((
+                key.into(),
+                format!(
+                    "body {} , serde_json::to_vec of the value passed is {}",
+                    String::from_utf8_lossy(&got.body),
+                    String::from_utf8_lossy(want)
+                ),
+            ));
+        }
         return Some((
             key.into(),
             format!("body {} , expected {:?}", util::show_bytes(&got.body), describe_body(&exp.body)),
@@ -521,7 +647,6 @@ pub fn compare(exp: &Expected, body_spec: &BodySpec, got: &HttpRequest) -> Optio
 fn describe_body(b: &BodyExpect) -> String {
     match b {
         BodyExpect::Bytes(b) => util::show_bytes(b),
-        BodyExpect::Json(v) => format!("json {v}"),
         BodyExpect::Form(p) => format!("form {p:?}"),
     }
 }
@@ -557,7 +682,15 @@ macro_rules! apply_case {
             BodySpec::None => b,
             BodySpec::Str(s) => b.body_string(s.clone()),
             BodySpec::Bytes(x) => b.body_bytes(x),
-            BodySpec::Json(v) => b.body_json(v).expect("json body"),
+            BodySpec::Json(v) => b.body_json(v).unwrap_or_else(|e| panic!("{BODY_JSON_REFUSED}: {e:?}")),
+            BodySpec::Typed(t) => match t {
+                TypedJson::UnorderedStruct => b.body_json(&tj_unordered()),
+                TypedJson::F32Struct => b.body_json(&tj_f32()),
+                TypedJson::BigInts => b.body_json(&tj_big()),
+                TypedJson::InsertionOrderMap => b.body_json(&tj_map()),
+                TypedJson::Enums => b.body_json(&tj_enums()),
+            }
+            .unwrap_or_else(|e| panic!("{BODY_JSON_REFUSED}: {e:?}")),
             BodySpec::Form(p) => b.body_form(p).expect("form body"),
             BodySpec::Reader(x, known) => b.body(crux_http::http::Body::from_reader(
                 futures::io::Cursor::new(x.clone()),
@@ -732,6 +865,14 @@ pub fn run_case(ix: CaseIx, al: &Arc<Alphabets>, verbose: bool) -> CaseResult {
         (transitions, trace, Some(op), None)
     });
     match r {
+        Err(p) if p.message.starts_with(BODY_JSON_REFUSED) => CaseResult {
+            transitions: 1,
+            validated: true,
+            outcome: "request/body-json-refused".into(),
+            finding: Some(("request/body-json-refused".into(), crate::util::first_line(&p.message).to_string())),
+            observed: None,
+            trace,
+        },
         Err(p) => CaseResult {
             transitions: 1,
             validated: false,
@@ -1010,7 +1151,7 @@ pub fn run(tier: Tier) -> i32 {
         coverage,
         &[
             "the url crate is the trusted base for URL syntax (hand-written expectations for every alphabet URL are cross-checked against it at start)",
-            "serde_json / url::form_urlencoded are the conforming decoders for JSON and form bodies and for query strings",
+            "a JSON body (json! value or typed value) must be byte for byte serde_json::to_vec of the value the app passed, and body_json must not fail where serde_json::to_vec succeeds; url::form_urlencoded is the conforming decoder for form bodies and query strings",
             "header order is not compared (owned by C11)",
             "a content type the app writes (header() or content_type()) wins regardless of builder-call order; the body kind's documented default applies only when the app wrote none",
             "Config::base_url joins are unreachable through the public API (no way to configure a Client) and are not enumerated",
